@@ -108,9 +108,14 @@ pub async fn dispatch_command<W: AsyncWrite + Unpin>(
                 Ok(())
             }
         }
-        _ => {
-            error!(target: "sneldb::dispatch", ?cmd, "Unreachable command variant encountered");
-            unreachable!("dispatch_command called with non-command")
+        Batch(_) => {
+            // The parser (and the HTTP JSON form) produce Command::Batch, but no handler executes
+            // it: answer with an error instead of panicking in the connection task.
+            error!(target: "sneldb::dispatch", "BATCH command received but not supported");
+            let resp = Response::error(StatusCode::BadRequest, "BATCH is not supported");
+            writer.write_all(&renderer.render(&resp)).await?;
+            writer.flush().await?;
+            Ok(())
         }
     }
 }
